@@ -140,6 +140,28 @@ func c06Check(x *core.Ctx, c *core.Case) {
 			x.Violate("tree-differs("+firstDiffLine(want, got.Canon(true))+")", got.Canon(true), want)
 			return
 		}
+		checkTypeTexts(x, res)
+		// a string value (default, directive argument) written as a block string is a block value in the tree, one written
+		// in quotes a quoted one
+		if rr := ref.LexFrame(src); rr.Abstain == "" && !rr.Failed {
+			starts := map[int]ref.Tok{}
+			for _, t := range rr.Toks {
+				starts[t.Start] = t
+			}
+			walkAST(res, nil, func(v *ast.Value) {
+				if (v.Kind != ast.StringValue && v.Kind != ast.BlockValue) || v.Position == nil {
+					return
+				}
+				t, ok := starts[v.Position.Start]
+				if !ok || (t.Kind != ref.KBlock && t.Kind != ref.KString) {
+					return // where values are is C04's business
+				}
+				x.Count("string_value_kinds_compared")
+				if (t.Kind == ref.KBlock) != (v.Kind == ast.BlockValue) {
+					x.Violate("tree-differs(string-kinds)", fmt.Sprintf("value kind %d for a %s token", v.Kind, t.Kind), "BlockValue for block strings, StringValue for quoted ones")
+				}
+			})
+		}
 		if plain := c.Get("plain"); plain != "" {
 			d2, err := parser.ParseSchema(&ast.Source{Name: "plain.graphql", Input: plain})
 			if err != nil {
